@@ -15,7 +15,10 @@ use crate::Value;
 
 // val = string / boolean / array / inline-table / date-time / float / integer
 pub(crate) fn value(input: &mut Input<'_>) -> ModalResult<Value> {
-    dispatch! {peek(any);
+    dispatch! {peek(any)
+                .context(StrContext::Label("string"))
+                .context(StrContext::Expected(StrContextValue::CharLiteral('"')))
+                .context(StrContext::Expected(StrContextValue::CharLiteral('\'')));
             crate::parser::strings::QUOTATION_MARK |
             crate::parser::strings::APOSTROPHE => string.map(|s| {
                 Value::String(Formatted::new(
